@@ -705,6 +705,7 @@ class Peer:
         # Timing instrumentation for peer message loop
         peer_loop_timer = LoopTimer(f'peer_main_{self.id()}', warn_threshold_ms=50)
 
+        read_task: asyncio.Future[Message] | None = None
         try:
             while not self._teardown:
                 peer_loop_timer.start()
@@ -717,10 +718,17 @@ class Peer:
                     self._neighbor.previous = None
                     self._neighbor = None
 
-                # Read message with timeout
-                try:
-                    message = await asyncio.wait_for(self.proto.read_message(), timeout=0.1)
-                except asyncio.TimeoutError:
+                # Read message with timeout. The read is not cancelled when the timeout fires, it is
+                # picked up again at the next turn: cancelling it between two TCP segments of one
+                # message threw away the bytes already taken from the socket, and the rest of the
+                # message was then read as a header (NOTIFICATION 1/1, connection not synchronized)
+                if read_task is None:
+                    read_task = asyncio.ensure_future(self.proto.read_message())
+                done, _pending = await asyncio.wait({read_task}, timeout=0.1)
+                if done:
+                    finished, read_task = read_task, None
+                    message = finished.result()
+                else:
                     message = _NOP
                     await asyncio.sleep(0)
 
@@ -765,6 +773,14 @@ class Peer:
         except Exception as exc:
             log.error(lazyexc('async.mainloop.exception error={exc}', exc), self.id())
             raise
+        finally:
+            # the session is over: whatever is still being read is not wanted any more
+            if read_task is not None:
+                if read_task.done():
+                    if not read_task.cancelled():
+                        read_task.exception()  # mark it retrieved
+                else:
+                    read_task.cancel()
 
         # Graceful restart handling
         log.debug(
